@@ -24,6 +24,9 @@ CHECKS = {
                 text="Bursts of 1-8 requests with gaps around the delay, busy and idle pipelines, cancels inside the burst, 4-client stress bursts; plus logically fired delays in conformance histories.", ref="4 C07"),
     "C08": dict(level="exploration", tech="runtime monitoring: driver-chosen task outcomes as ground truth, task-level simulation vs tasks inside the monitored runner after every step, predicted verdict vs terminal ReadJob snapshot and /job/detail JSON",
                 text="Failure/allow_failure/non-exit-error assignments x both fail-fast settings x release orders x external cancels; verdict soundness (plain success only if all tasks succeeded or failed with allow_failure) is checked on every finished job.", ref="4 C08"),
+    "C13": dict(level="exploration", tech="Go race detector (-race, implies checkptr) over measured-coverage stress histories; report blocks counted in GORACE log files and de-duplicated by frame pair",
+                text="All exported operations plus job/timer/persist goroutines in flight at once, with retention so that saves delete, monitored and real task runner; the run is inconclusive unless every lock-conflicting operation pair overlapped at least 20 times.", ref="4 C13",
+                note="Trusted base: the Go race detector and runtime. Only races on paths the workload reaches are seen; the evidence file lists the measured overlap matrix."),
     "C15": dict(level="exploration", tech="runtime monitoring: API flags (schedulable/running) vs outcome of the next request and vs job list at every quiescent step",
                 text="The schedulable flag is read immediately before every schedule request of the history and compared with what the request then returns; running flag, presence, ordering and timestamps are checked on every snapshot.", ref="4 C15"),
     "C16": dict(level="exploration", tech="runtime monitoring: the monitored runner records the task.Task actually handed to it (commands, env, variables); compared with a deep copy of the definition taken when the schedule request returned; reload operations inside conformance histories (also with the loop parked between tasks via H1)",
